@@ -92,7 +92,7 @@ func genC15(seed uint64, tier string) *Plan {
 		if r.Bool(0.1) {
 			p.Ops = append(p.Ops, Op{K: "adv", Dt: PickOne(r, advDts[:4])})
 		}
-		if r.Bool(0.04) {
+		if r.Bool(0.04) && !p.Cfg.VirtualTime {
 			p.Ops = append(p.Ops, Op{K: "restart", Dt: int64(time.Millisecond)})
 		}
 		if r.Bool(0.15) {
@@ -155,7 +155,11 @@ func genC15(seed uint64, tier string) *Plan {
 	}
 	// p.Tables was used as a scratch list of all fields above
 	p.Tables = initial
-	p.Ops = append(p.Ops, Op{K: "check", Dt: 1000}, Op{K: "flush", Dt: 1000}, Op{K: "check", Dt: 1000}, Op{K: "restart", Dt: int64(time.Millisecond)}, Op{K: "check", Dt: 1000})
+	p.Ops = append(p.Ops, Op{K: "check", Dt: 1000}, Op{K: "flush", Dt: 1000}, Op{K: "check", Dt: 1000})
+	if !p.Cfg.VirtualTime {
+		// (a virtual clock does not survive a restart, and with it the window)
+		p.Ops = append(p.Ops, Op{K: "restart", Dt: int64(time.Millisecond)}, Op{K: "check", Dt: 1000})
+	}
 	return p
 }
 
